@@ -18,7 +18,7 @@ Local Open Scope nat_scope.
 Definition micro_static_hb (c : fchart) : bool :=
   wf_histb c && root_compoundb c && par_nonemptyb c && targets_antichainb c && done_okb c && root_silentb c &&
   cpl_okb c && cpl_antib c && targets_noinitb c &&
-  hist_target_localb c && hist_targets_nodupb c && leaf_okb c.
+  hist_target_localb c && leaf_okb c.
 
 Record MicroStaticH (c : fchart) : Prop := {
   mh_wfh : WFH c;
@@ -28,7 +28,6 @@ Record MicroStaticH (c : fchart) : Prop := {
   mh_cplanti : CplAnti c;
   mh_tganti : TgAnti c;
   mh_tgnoinit : forall ti g, In g (ft_targets (tr c ti)) -> fs_type (st c g) <> FInitial;
-  mh_htnd : forall ti, NoDup (filter (fun s => histS c s) (ft_targets (tr c ti)));
   mh_local : forall ti, TLocal c (tr c ti);
   mh_leaf : forall x k, is_atomic_state c x = true -> fs_parent (st c k) <> Some x;
   mh_deep : DeepFull c;
@@ -56,7 +55,7 @@ Qed.
 Lemma micro_static_h_sound late t0 : let c := flatten late t0 in micro_static_hb c = true -> MicroStaticH c.
 Proof.
   intros c. unfold micro_static_hb. intros H.
-  apply andb_true_iff in H as [H Blf]. apply andb_true_iff in H as [H Bnd].
+  apply andb_true_iff in H as [H Blf].
   apply andb_true_iff in H as [H Blo]. apply andb_true_iff in H as [H Bni]. apply andb_true_iff in H as [H Bca].
   apply andb_true_iff in H as [H Bco]. apply andb_true_iff in H as [H Bsi]. apply andb_true_iff in H as [H Bdo].
   apply andb_true_iff in H as [H Bta]. apply andb_true_iff in H as [H Bpa]. apply andb_true_iff in H as [H Bro].
@@ -69,7 +68,6 @@ Proof.
   - now apply cpl_antib_sound.
   - now apply targets_antichainb_sound_h.
   - now apply targets_noinitb_sound.
-  - now apply hist_targets_nodupb_sound.
   - now apply hist_target_localb_sound.
   - now apply leaf_okb_sound.
   - now apply flatten_deep_full.
@@ -118,7 +116,7 @@ Qed.
 (* ---- one microstep ---- *)
 Theorem body_conforms_hist_lemma sel l s x0 :
   legal_configb c (l_cfg l) = true -> HistOK c (l_hist l) -> HistDown c (l_hist l) -> hv_rel c (l_hist l) (s_hv s) -> corr c l s ->
-  NoDup sel -> (forall ti, In ti sel -> In (ft_source (tr c ti)) (l_cfg l)) ->
+  (forall ti, In ti sel -> In (ft_source (tr c ti)) (l_cfg l)) ->
   pairwise_ok lg_fixed c sel ->
   (forall ti, In ti sel -> ft_history (tr c ti) || ft_initial (tr c ti) = false) ->
   let r := microstep lg_fixed ex_fixed c l x0 (sel_targets c sel) (sel_exitset c (l_cfg l) sel) sel false in
@@ -126,10 +124,10 @@ Theorem body_conforms_hist_lemma sel l s x0 :
   corr c (fst r) (fst q) /\ snd q = emit (spec_cfg_tok c (fst q)) (snd r) /\
   HistOK c (l_hist (fst r)) /\ HistDown c (l_hist (fst r)) /\ hv_rel c (l_hist (fst r)) (s_hv (fst q)).
 Proof.
-  intros Hleg HH HD HR Hcorr Hnd Hsrc Hok Hnp. pose proof (mh_wfh c HS) as W.
+  intros Hleg HH HD HR Hcorr Hsrc Hok Hnp. pose proof (mh_wfh c HS) as W.
   pose proof (legal_configb_sound_h c W _ Hleg) as HL.
-  apply (body_conforms_hist_sec c W (mh_cplok c HS) (mh_cplanti c HS) (mh_tganti c HS) (mh_tgnoinit c HS) (mh_htnd c HS) (mh_root c HS)
-           (mh_deep c HS) (mh_leaf c HS) (mh_trn c HS) sel l s x0 Hcorr HL HH HD HR Hnd Hsrc Hok Hnp).
+  apply (body_conforms_hist_sec c W (mh_cplok c HS) (mh_cplanti c HS) (mh_tganti c HS) (mh_tgnoinit c HS) (mh_root c HS)
+           (mh_deep c HS) (mh_leaf c HS) (mh_trn c HS) sel l s x0 Hcorr HL HH HD HR Hsrc Hok Hnp).
   - apply flatten_has_body.
   - exact (mh_silent c HS).
   - intros Hl i Hi. destruct late; [discriminate Hl|]. now apply flatten_early_data.
@@ -143,7 +141,7 @@ Qed.
 
 Theorem microstep_conforms_hist_lemma sel l s x :
   legal_configb c (l_cfg l) = true -> HistOK c (l_hist l) -> HistDown c (l_hist l) -> hv_rel c (l_hist l) (s_hv s) -> corr c l s ->
-  NoDup sel -> (forall ti, In ti sel -> In (ft_source (tr c ti)) (l_cfg l)) ->
+  (forall ti, In ti sel -> In (ft_source (tr c ti)) (l_cfg l)) ->
   pairwise_ok lg_fixed c sel ->
   (forall ti, In ti sel -> ft_history (tr c ti) || ft_initial (tr c ti) = false) ->
   let r := microstep lg_fixed ex_fixed c l (emit TMsB x) (sel_targets c sel) (sel_exitset c (l_cfg l) sel) sel false in
@@ -162,7 +160,6 @@ Theorem body_selected_conforms_hist_lemma l s ev xsel x0 :
   HistOK c (l_hist (fst r)) /\ HistDown c (l_hist (fst r)) /\ hv_rel c (l_hist (fst r)) (s_hv (fst q)).
 Proof.
   intros Hleg HH HD HR Hcorr sel. apply body_conforms_hist_lemma; try assumption.
-  - apply ssorted_NoDup. apply select_loop_ssorted_h. exact I.
   - apply (select_loop_sources_h c (mh_wfh c HS)); [intros z; apply cfg_postfix_sub | intros ti []].
   - apply select_loop_pairwise. apply nil_pairwise.
   - apply select_loop_np. intros ti [].
